@@ -7,6 +7,7 @@ package iam
 
 import (
 	"context"
+	"encoding/base64"
 	"encoding/json"
 	"errors"
 	"fmt"
@@ -200,6 +201,13 @@ func TestVerifC19(t *testing.T) {
 	// LIVE session state seeded before every call so that the input gets past the state lookup
 	shapes := []string{`[]`, ` [ ] `, `[[]]`, `[[],[]]`, `[{}]`, `[null]`, `{}`, `null`, `""`, `"x"`, `5`, `true`, `[5]`, `["x"]`, `[` + vpToken + `]`, `[[` + vpToken + `]]`,
 		`[` + vpToken + `,[]]`, `[` + vpToken + `,null]`, `[` + vpToken + `,` + vpToken + `]`, ``, ` `, `[`, `]`, "\x00"}
+	// JWT presentations whose vp claim is absent / null while a jti is present (ParseEnvelope is the handler's first step)
+	{
+		b64 := base64.RawURLEncoding
+		for _, claims := range []string{`{"jti":"x"}`, `{"jti":"x","vp":null}`, `{"jti":"x","vp":5}`, `{"vp":null}`, `{}`, `{"jti":null,"vp":{}}`} {
+			shapes = append(shapes, b64.EncodeToString([]byte(`{"alg":"ES256","typ":"JWT","kid":"did:web:example.com:iam:holder#0"}`))+"."+b64.EncodeToString([]byte(claims))+"."+b64.EncodeToString(make([]byte, 64)))
+		}
+	}
 	for _, sh := range shapes {
 		v := sh
 		run(mkIn(&v, &submission, &st, verifierSubject), "vp_token-shape")
